@@ -35,3 +35,137 @@ pub proof fn lemma_tail_tiled(s: Seq<u8>, o: int, a: bool, b: bool, c: bool)
     }
 }
 
+
+// ================= C10 corollaries (spec level) =================
+// the exposed stream in state 0, cut after the first integrity attribute: every walk position up to and including it
+pub open spec fn pre_exposed(s: Seq<u8>, o: int) -> Seq<int>
+    decreases s.len() - o
+{
+    if o < 0 || o + 4 > s.len() || a_next(s, o) > s.len() { Seq::<int>::empty() }
+    else if is_integrity(a_type(s, o)) { seq![o] }
+    else { seq![o] + pre_exposed(s, a_next(s, o)) }
+}
+// offset just past the first integrity attribute (or the end of the walk when there is none)
+pub open spec fn pre_end(s: Seq<u8>, o: int) -> int
+    decreases s.len() - o
+{
+    if o < 0 || o + 4 > s.len() || a_next(s, o) > s.len() { o }
+    else if is_integrity(a_type(s, o)) { a_next(s, o) }
+    else { pre_end(s, a_next(s, o)) }
+}
+pub proof fn lemma_a_next_gt(s: Seq<u8>, o: int)
+    ensures a_next(s, o) >= o + 4
+{ assert(padded(a_len(s, o)) >= 0); }
+
+// [C10.tail-types] once an integrity attribute has been passed, only MESSAGE-INTEGRITY-SHA256 (directly after
+// MESSAGE-INTEGRITY) and FINGERPRINT are exposed
+pub proof fn lemma_exposed_after_integrity(s: Seq<u8>, o: int, st: int, k: int)
+    requires st == 1 || st == 2, 0 <= k < exposed_from(s, o, st).len()
+    ensures ({ let x = exposed_from(s, o, st)[k]; x >= o && (a_type(s, x) == FP || (a_type(s, x) == MI256 && st == 1 && x == o)) })
+    decreases s.len() - o
+{
+    lemma_a_next_gt(s, o);
+    if !(o < 0 || o + 4 > s.len() || a_next(s, o) > s.len()) {
+        let t = a_type(s, o);
+        let rest = exposed_from(s, a_next(s, o), 2);
+        if (st == 1 && t == MI256) || t == FP {
+            assert(exposed_from(s, o, st) =~= seq![o] + rest);
+            if k > 0 { lemma_exposed_after_integrity(s, a_next(s, o), 2, k - 1); assert(exposed_from(s, o, st)[k] == rest[k - 1]); }
+        } else {
+            lemma_exposed_after_integrity(s, a_next(s, o), 2, k);
+        }
+    }
+}
+// [C10.split] the exposed stream is the prefix up to and including the first integrity attribute, followed only by
+// attributes of type MESSAGE-INTEGRITY-SHA256 / FINGERPRINT located after it.  Hence every exposed attribute of any
+// other type lies before the end of the first integrity attribute, i.e. inside the bytes the HMAC covers.
+pub proof fn lemma_exposed_split(s: Seq<u8>, o: int, k: int)
+    requires 0 <= k < exposed_from(s, o, 0).len()
+    ensures ({ let x = exposed_from(s, o, 0)[k]; let p = pre_exposed(s, o);
+        (k < p.len() && x == p[k] && x < pre_end(s, o)) || (k >= p.len() && x >= pre_end(s, o) && (a_type(s, x) == FP || a_type(s, x) == MI256)) }),
+        pre_exposed(s, o).len() <= exposed_from(s, o, 0).len(),
+    decreases s.len() - o
+{
+    lemma_a_next_gt(s, o);
+    if !(o < 0 || o + 4 > s.len() || a_next(s, o) > s.len()) {
+        let t = a_type(s, o);
+        let nx = a_next(s, o);
+        if t == MI || t == MI256 {
+            let st2 = if t == MI { 1int } else { 2int };
+            assert(exposed_from(s, o, 0) =~= seq![o] + exposed_from(s, nx, st2));
+            assert(pre_exposed(s, o) =~= seq![o]);
+            if k > 0 { lemma_exposed_after_integrity(s, nx, st2, k - 1); assert(exposed_from(s, o, 0)[k] == exposed_from(s, nx, st2)[k - 1]); }
+        } else {
+            assert(exposed_from(s, o, 0) =~= seq![o] + exposed_from(s, nx, 0));
+            assert(pre_exposed(s, o) =~= seq![o] + pre_exposed(s, nx));
+            lemma_pre_end_ge(s, nx);
+            if k > 0 {
+                lemma_exposed_split(s, nx, k - 1);
+                assert(exposed_from(s, o, 0)[k] == exposed_from(s, nx, 0)[k - 1]);
+                if k - 1 < pre_exposed(s, nx).len() { assert(pre_exposed(s, o)[k] == pre_exposed(s, nx)[k - 1]); }
+            } else {
+                assert(exposed_from(s, nx, 0).len() >= 0);
+            }
+            if exposed_from(s, nx, 0).len() > 0 { lemma_exposed_split(s, nx, 0); } else { assert(pre_exposed(s, nx).len() == 0) by { lemma_pre_le(s, nx); } }
+        }
+    }
+}
+pub proof fn lemma_pre_le(s: Seq<u8>, o: int)
+    ensures pre_exposed(s, o).len() <= exposed_from(s, o, 0).len()
+    decreases s.len() - o
+{
+    lemma_a_next_gt(s, o);
+    if !(o < 0 || o + 4 > s.len() || a_next(s, o) > s.len()) {
+        let t = a_type(s, o);
+        if !(t == MI || t == MI256) { lemma_pre_le(s, a_next(s, o)); }
+    }
+}
+pub proof fn lemma_pre_end_ge(s: Seq<u8>, o: int)
+    ensures pre_end(s, o) >= o
+    decreases s.len() - o
+{
+    lemma_a_next_gt(s, o);
+    if !(o < 0 || o + 4 > s.len() || a_next(s, o) > s.len()) {
+        if !is_integrity(a_type(s, o)) { lemma_pre_end_ge(s, a_next(s, o)); }
+    }
+}
+// [C10.prefix-stable] replacing the bytes after the first integrity attribute never changes the exposed attributes
+// before it: if two buffers agree up to the end e of the first integrity attribute of the first one, they have the same
+// pre-integrity exposed stream (same offsets, hence same types and value bytes)
+pub proof fn lemma_prefix_stable(s1: Seq<u8>, s2: Seq<u8>, o: int)
+    requires
+        0 <= o <= s1.len(), pre_end(s1, o) <= s2.len(), s1.subrange(0, pre_end(s1, o)) =~= s2.subrange(0, pre_end(s1, o)),
+        pre_exposed(s1, o).len() > 0, is_integrity(a_type(s1, pre_exposed(s1, o).last())),
+    ensures pre_exposed(s2, o) == pre_exposed(s1, o), pre_end(s2, o) == pre_end(s1, o)
+    decreases s1.len() - o
+{
+    lemma_a_next_gt(s1, o);
+    lemma_pre_end_ge(s1, o);
+    lemma_pre_end_le(s1, o);
+    let e = pre_end(s1, o);
+    if !(o < 0 || o + 4 > s1.len() || a_next(s1, o) > s1.len()) {
+        let nx = a_next(s1, o);
+        lemma_pre_end_ge(s1, nx);
+        // the TLV header at o lies below e in both buffers
+        assert(e >= nx) by { if !is_integrity(a_type(s1, o)) { lemma_pre_end_ge(s1, nx); } }
+        assert(s1[o] == s1.subrange(0, e)[o] && s1[o + 1] == s1.subrange(0, e)[o + 1] && s1[o + 2] == s1.subrange(0, e)[o + 2] && s1[o + 3] == s1.subrange(0, e)[o + 3]);
+        assert(s2[o] == s2.subrange(0, e)[o] && s2[o + 1] == s2.subrange(0, e)[o + 1] && s2[o + 2] == s2.subrange(0, e)[o + 2] && s2[o + 3] == s2.subrange(0, e)[o + 3]);
+        assert(a_type(s2, o) == a_type(s1, o) && a_next(s2, o) == nx);
+        if !is_integrity(a_type(s1, o)) {
+            assert(pre_exposed(s1, o) =~= seq![o] + pre_exposed(s1, nx));
+            assert(pre_exposed(s1, nx).len() > 0) by { if pre_exposed(s1, nx).len() == 0 { assert(pre_exposed(s1, o).last() == o); } }
+            assert(pre_exposed(s1, o).last() == pre_exposed(s1, nx).last());
+            lemma_prefix_stable(s1, s2, nx);
+        }
+    }
+}
+pub proof fn lemma_pre_end_le(s: Seq<u8>, o: int)
+    requires o <= s.len()
+    ensures pre_end(s, o) <= s.len()
+    decreases s.len() - o
+{
+    lemma_a_next_gt(s, o);
+    if !(o < 0 || o + 4 > s.len() || a_next(s, o) > s.len()) {
+        if !is_integrity(a_type(s, o)) { lemma_pre_end_le(s, a_next(s, o)); }
+    }
+}
